@@ -531,7 +531,7 @@ def main():
             "functions_under_contract": fn_under_contract,
             "labelled_clauses_for_property": len([1 for r in results.values() if r.unit for l in r.unit.labels.values() if prop in label_props(l)]),
             "samples": samples,
-            "explanation": "obligations = SMT queries reported by Verus (one per function/proof body, each bundling that function's postconditions, callee preconditions, loop invariants, termination and panic-freedom conditions); discharged = those Verus reports as success.",
+            "explanation": "obligations = SMT queries reported by Verus (one per function/proof body, each bundling that function's postconditions, callee preconditions, loop invariants, termination and panic-freedom conditions); discharged = those Verus reports as success.  A query that fails only because of a listed known finding, or only in an obligation labelled for a different property, is NOT counted in either number: it is listed under known_finding_obligations / failed_obligations_of_other_properties instead (%d such queries on this run).  The functions concerned are therefore not claimed as proved for this property." % n_other_failed,
             "undecided": [{"unit": u, "reason": why} for (u, why, _) in undecided],
             "known_findings_matched": [k.get("what", "") for k, _ in known_hits],
             "failed_obligations_of_other_properties": other_failed,
